@@ -46,6 +46,12 @@ def ty_src(t):
         return f"Enum[{t[1]}]"
     if k == "EnumVals":
         return f"Enum(values={t[1]!r})"
+    if k == "EnumSet":          # values given as a set literal (iteration order depends on PYTHONHASHSEED)
+        return "Enum(values={" + ", ".join(repr(v) for v in t[1]) + "})"
+    if k == "EnumTuple":
+        return f"Enum(values={tuple(t[1])!r})"
+    if k == "EnumItem":         # Enum['a', 'b']
+        return "Enum[" + ", ".join(repr(v) for v in t[1]) + "]"
     if k == "Ref":
         return t[1]
     if k == "py":
@@ -112,7 +118,7 @@ def valid_src(t, mod):
         return None if None in (kk, vv) or t[1][0] not in ("String", "Integer", "py") else "{" + kk + ": " + vv + "}"
     if k == "Enum":
         return f"list({t[1]})[0]"
-    if k == "EnumVals":
+    if k in ("EnumVals", "EnumSet", "EnumTuple", "EnumItem"):
         return repr(t[1][0])
     if k == "Ref":
         return f"_mk_{t[1]}()"
@@ -640,6 +646,40 @@ def const_cases(rng, tier):
         for apd in (True, False):
             cases.append({"suite": "stub", "mod": {"items": json.loads(json.dumps(items))}, "apd": apd, "dflt": apd,
                           "seeds": [], "const_value": cv})
+    return cases
+
+
+# ------------------------------------------------------------------ Enum fields over plain values (literals in the stub)
+
+HOSTILE_STRINGS = ['a"b', "it's", "back\\slash", "line\nbreak", "\u00e9t\u00e9", "tab\there", "", " ", '"""', "x'\"y", "#hash",
+                   '\\"', "]", "a, b", "None", "\r"]
+WORDS = ["shipped", "pending", "delivered", "returned", "packed", "lost", "open", "closed", "alpha", "beta", "gamma"]
+
+
+def enumvals_cases(rng, tier):
+    """Enum(values=...) fields whose values end up (or may end up) as literals inside the stub: every hostile string
+    (quotes, backslashes, line breaks, non-ASCII, brackets, commas) as list / tuple / Enum[...] values, top-level and
+    nested; values given as a SET of several strings, generated under other PYTHONHASHSEEDs as well"""
+    st = lambda name, fields, **kw: dict({"kind": "struct", "name": name, "style": "annot",
+                                         "bases": [{"b": "Structure"}], "fields": fields}, **kw)
+    cases = []
+    for i, h in enumerate(HOSTILE_STRINGS):
+        kind = ["EnumVals", "EnumTuple", "EnumItem"][i % 3]
+        items = [st("EA", [{"name": "v", "ty": [kind, [h, "plain"]]},
+                           {"name": "w", "ty": ["Array", ["EnumVals", [h]]]},
+                           {"name": "m", "ty": ["Map", ["String"], ["EnumVals", ["k", h]]]},
+                           {"name": "n", "ty": ["EnumVals", [1, 2]]},
+                           {"name": "o", "ty": ["AnyOf", ["EnumVals", [h, 3]], ["None"]]}], optional=["w", "m"]),
+                 st("EB", [{"name": "x", "ty": ["String"]}], bases=[{"b": "Partial", "of": "EA"}])]
+        cases.append({"suite": "stub", "mod": {"items": items}, "apd": True, "dflt": True, "seeds": [],
+                      "enumvals": "hostile:" + kind})
+    for k in range(2 if tier == "quick" else 6):
+        vals = rng.sample(WORDS, 6)
+        items = [st("ES", [{"name": "status", "ty": ["EnumSet", vals]},
+                           {"name": "tags", "ty": ["Array", ["EnumSet", rng.sample(WORDS, 5)]]},
+                           {"name": "nums", "ty": ["EnumSet", [3, 1, 2]]}], optional=["tags"])]
+        cases.append({"suite": "stub", "mod": {"items": items}, "apd": True, "dflt": True,
+                      "seeds": [1, 4242] if tier == "quick" else [1, 2, 3, 4242], "enumvals": "set-valued"})
     return cases
 
 
@@ -1299,6 +1339,8 @@ def tags(case, impl, model):
         out.append("const-value:" + case["const_value"])
     if case.get("mi"):
         out.append("multi-base-same-field:" + case["mi"])
+    if case.get("enumvals"):
+        out.append("enum-values:" + case["enumvals"])
     if case.get("sig_site"):
         out += [f"sig-site:{case['sig_site']}", f"sig-default:{case['sig_default']}"]
     if "unbuildable" in impl:
